@@ -716,6 +716,10 @@ func (e *specEnv) call(ex SCall) Value {
 	case "held":
 		// held(p.mu) / held(ptr): the ghost lock bit of the mutex at that address
 		return Value{T: boolT, Term: e.lockHeld(ex.Args[0])}
+	case "typename":
+		// typename(x): the static Go type of the expression, as a string constant
+		v := arg(0)
+		return x.constValueStr(e.s, typeStr(v.T))
 	case "done":
 		// done(p.once): the ghost bit of a sync.Once field
 		a := e.muAddrOf(ex.Args[0])
